@@ -652,6 +652,14 @@ class World:
         return sum(l.steps for l in self.loops)
 
 
+def _task_order(t):
+    name = t.get_name()
+    head, _, num = name.rpartition("-")
+    if head == "Task" and num.isdigit():
+        return (0, int(num), "")
+    return (1, 0, name)
+
+
 def _cancel_all(loop):
     """asyncio.run()'s shutdown: cancel what is left, give it a chance to finish."""
     try:
@@ -660,6 +668,9 @@ def _cancel_all(loop):
         return
     if not tasks:
         return
+    # all_tasks() is a set of objects hashed by address: its order differs from process to process.  Cancel in
+    # creation order (default task names carry a process-wide counter; named tasks sort by name after them).
+    tasks.sort(key=_task_order)
     for t in tasks:
         t.cancel()
     try:
